@@ -93,8 +93,9 @@ func (g *Gen) producer(depth int) (*Node, Kind) {
 		return Cmd("put", args...), ek
 	case 4:
 		ek := []Kind{KNStr, KStr, KNum}[g.R.Intn(3)]
+		lam := g.pureLambda(depth-1, KAny) // generated in textual order: the lambda comes first
 		l := g.expr(KList, depth-1)
-		return Cmd("each", g.pureLambda(depth-1, KAny), l), ek
+		return Cmd("each", lam, l), ek
 	default:
 		return Cmd("put", g.multi(KAny, depth-1), g.multi(KAny, depth-1)), KAny
 	}
